@@ -94,7 +94,7 @@ PROPS = {
             'Predictor::predict therefore requires pred_scores_ok (scorer tables well-formed; no i32 overflow for this text) and sentences shorter than 2^31 characters: stated ranges, not proved of Predictor::new',
             'that the reported match sequence is "the longest pattern ending at each position" and that merged entries carry the sum of their suffixes (so that the sum over matches equals the sum over ALL occurrences) is assumed, covered only by the bounded sweep',
             'CharWeightMerger/TypeWeightMerger::merge (BTreeMap + RefCell + string slicing) are outside Verus: that suffix merging makes the longest match carry the sum of its suffixes is covered only by the bounded sweep',
-            'TypeScorerBoundaryCache::new (the automaton loop that fills the table) is assumed through cache_wf; its index decoding seqid_to_seq is PROVED in T_cache (digits of the id, most significant first; accepted id == rolling id of the decoded sequence)',
+            'TypeScorerBoundaryCache::new: its table-filling loop is PROVED in T_cache as an extracted block (fill_table: every id that spells a type sequence gets the sum, over the occurrences the ASSUMED daachorse find_overlapping_iter reports in that sequence, of the pattern weight at position 2W - end; other entries stay 0) and its index decoding seqid_to_seq is PROVED (accepted id == rolling id of the decoded sequence); the rest of new() (automaton construction, weights copied in pattern order, table and mask sizes = cache_wf) is assumed at the block boundary',
         ],
     },
     'C06': {
